@@ -114,7 +114,8 @@ func (w *World) verifyFunc(con *Contract) (res *FuncResult) {
 		}
 	}
 	// postconditions at every return
-	for ri, rp := range in.rets {
+	for _, rp := range in.rets {
+		ri := rp.idx
 		renv := in.entryEnv(rp.st)
 		renv.old = in.entry
 		for i, name := range con.Results {
@@ -148,7 +149,7 @@ func (w *World) verifyFunc(con *Contract) (res *FuncResult) {
 				continue
 			}
 			t := in.specBool(en.Expr, renv)
-			o := &Obligation{Name: fmt.Sprintf("%s#ensures:%d@ret%d", e.fname, i, ri), Kind: "ensures", Pos: rp.pos, Step: rp.step(e), Reach: rp.st.reach, Goal: t, Top: en.Top, Blk: rp.blk}
+			o := &Obligation{Name: fmt.Sprintf("%s#ensures:%d@ret%d", e.fname, i, ri), Kind: "ensures", Pos: rp.pos, Step: rp.step(e), Reach: rp.st.reach, Goal: t, Top: en.Top, Blk: rp.blk, Prop: en.Prop}
 			e.obls = append(e.obls, o)
 		}
 		in.frameCheck(con, rp, ri)
